@@ -1,16 +1,38 @@
 // C36: backend name/path mapping round-trips for every name.
-// E4: small-scope exhaustive enumeration of (scheme, root, name) on the real
-// namepath pathers. Law: NameFromBlobPath(BlobPath(name)) == name for every
-// valid name of the scheme and every configurable root (with / without a
-// trailing slash, including the filesystem root).
+// E4: small-scope exhaustive enumeration on the real namepath pathers.
+// Law: NameFromBlobPath(BlobPath(name)) == name for every valid name of the
+// scheme and every configurable root (with / without a trailing slash,
+// including the filesystem root).
+//
+// Two parts, both executed in CHILD PROCESSES of this binary (one fresh process
+// per history), because the law quantifies over pathers a deployment creates
+// and uses one after the other inside one process: whatever package-level state
+// the implementation keeps is process state, and the order of uses matters.
+//
+//	A. single use: every (scheme, root, name) of the bounded name domain, each
+//	   (scheme, root, chunk of names) in its own fresh process;
+//	B. histories: ordered pairs (thorough: also triples) of uses (scheme, root)
+//	   over a root alphabet of near-colliding spellings, plus the cyclic
+//	   rotations of the history that uses a whole alphabet once (long-lived
+//	   process); probe names per scheme; after every use the round trip is
+//	   checked for the use just made AND again for every earlier use of the
+//	   history (both for the path stored when it was first produced -- a later
+//	   listing -- and for a freshly produced path).
+//
+// A process start costs ~0.1-0.3 CPU-seconds in the sandbox, which is what
+// bounds the number of histories (quick ~130, thorough ~1800 processes).
+// The parent process never calls namepath itself.
 package main
 
 import (
+	"bytes"
+	"context"
 	"encoding/json"
 	"fmt"
 	"os"
+	"os/exec"
+	"path"
 	"regexp"
-	"runtime"
 	"sort"
 	"strings"
 	"sync"
@@ -21,7 +43,9 @@ import (
 	"github.com/uber/kraken/lib/backend/namepath"
 
 	"verif/evid"
-	_ "verif/quiet"
+	// verif/quiet is deliberately not imported: namepath does not log, and
+	// linking kraken's logger (zap, otel, net/http) triples the start-up cost of
+	// every child process.
 )
 
 // ---------------------------------------------------------------------------
@@ -164,36 +188,126 @@ func identityNames(maxLen int) []string {
 	return out
 }
 
-// Roots: absolute, clean up to one trailing slash, depth 0..2, plus the
-// relative roots the shipped helm / devcluster configs use for testfs.
-var roots = []string{
+// ---------------------------------------------------------------------------
+// Roots.
+
+// soloRoots (part A, every name of the bounded domain): absolute roots of
+// depth 0..2 with and without trailing slash and the relative roots the
+// shipped helm / devcluster configs use for testfs.
+var soloRoots = []string{
 	"/", "/a", "/a/", "/a/b", "/a/b/", "/a-b_c/0", "/a-b_c/0/",
 	"tags", "tags/", "blobs/x",
 }
 
+// extraSoloRoots (part A, reduced name domain: these roots vary how the ROOT is
+// handled, the name handling is covered by soloRoots): the empty root
+// (namepath.New("", ...) is what lib/dockerregistry/transfer/testing.go builds
+// and what an unset root_directory yields), a doubled slash, a relative root
+// with a trailing slash, and roots with characters that are special in regular
+// expressions ('.', '+', '(').
+var extraSoloRoots = []string{"", "//", "a/", "a.b", "/a+b/", "/a(b"}
+
+// historyRoots (part B): spellings that a lossy normalisation (trim / clean /
+// base / lower-case / quote) could identify although they name different
+// directories, next to spellings that do name the same directory.
+var historyRoots = []string{
+	"", "/", "//", "a", "a/", "/a", "/a/", "a/b", "/a/b/", "a.b", "A", "/a+b",
+}
+
+// Quick tier: pairs over quickPairRoots, per-scheme rotations over
+// quickHistoryRoots.
+var quickPairRoots = []string{"", "/", "a", "a/", "/a", "A"}
+var quickHistoryRoots = []string{"", "/", "a", "a/", "/a", "A", "a/b", "a.b"}
+
+// quickCrossSchemeRoots: roots of the quick tier's two-scheme pairs.
+var quickCrossSchemeRoots = []string{"", "a/"}
+
+// coreHistoryRoots: the sub-alphabet explored one step deeper (thorough).
+var coreHistoryRoots = []string{"", "/", "a", "/a"}
+
+var schemes = []string{namepath.DockerTag, namepath.ShardedDockerBlob, namepath.Identity}
+
 func rootClass(root string) string {
+	if strings.ContainsAny(root, `\+*?()|[]{}^$`) {
+		return "root contains a regexp operator character"
+	}
+	if strings.Contains(root, ".") {
+		return "root contains '.'"
+	}
 	if strings.HasSuffix(root, "/") {
 		return "root ends with '/'"
 	}
 	return "root without trailing slash"
 }
 
+// underRoot: rel below root, written without package path (empty components of
+// the root dropped, a leading slash kept).
+func underRoot(root, rel string) string {
+	var parts []string
+	for _, c := range strings.Split(root, "/") {
+		if c != "" {
+			parts = append(parts, c)
+		}
+	}
+	s := strings.Join(append(parts, rel), "/")
+	if strings.HasPrefix(root, "/") {
+		s = "/" + s
+	}
+	return s
+}
+
 // refPath: the storage layout written independently of pather.go (used only as
 // a recorded diagnostic: the property states the round trip, not the layout).
 func refPath(scheme, root, name string) string {
-	r := strings.TrimSuffix(root, "/") // "/" -> "", "/a/" -> "/a", "tags/" -> "tags"
 	switch scheme {
 	case namepath.DockerTag:
 		i := strings.LastIndex(name, ":")
-		return r + "/docker/registry/v2/repositories/" + name[:i] + "/_manifests/tags/" + name[i+1:] + "/current/link"
+		return underRoot(root, "docker/registry/v2/repositories/"+name[:i]+"/_manifests/tags/"+name[i+1:]+"/current/link")
 	case namepath.ShardedDockerBlob:
-		return r + "/docker/registry/v2/blobs/sha256/" + name[:2] + "/" + name + "/data"
+		return underRoot(root, "docker/registry/v2/blobs/sha256/"+name[:2]+"/"+name+"/data")
 	default:
-		return r + "/" + name
+		return underRoot(root, name)
+	}
+}
+
+// Probe names of part B: a few valid names per scheme; the identity probes
+// include the root-relative storage paths of the other schemes' probes and a
+// pair (a, b/a) that maps to one path under the roots a/b and a.
+const (
+	probeHexA = "00112233445566778899aabbccddeeff00112233445566778899aabbccddeeff"
+	probeHexB = "ff85ceb9734a3c2fbb886e0f7cfc66b046eeeae953d8cb430dc5a7ace544b0e9"
+)
+
+func probeNames(scheme string) []string {
+	switch scheme {
+	case namepath.DockerTag:
+		return []string{"a:latest", "library/ubuntu:v1.0", "tags/current:link"}
+	case namepath.ShardedDockerBlob:
+		return []string{probeHexA, probeHexB}
+	default:
+		return []string{
+			"a", "b/a", "library/ubuntu:latest",
+			refPath(namepath.DockerTag, "", "a:latest"),
+			refPath(namepath.ShardedDockerBlob, "", probeHexB),
+		}
+	}
+}
+
+func validName(scheme, n string) bool {
+	switch scheme {
+	case namepath.DockerTag:
+		return validDockerTagName(n)
+	case namepath.ShardedDockerBlob:
+		return reHex64.MatchString(n)
+	default:
+		return validIdentityName(n)
 	}
 }
 
 // ---------------------------------------------------------------------------
+// Child protocol: a history specification on stdin, a report on stdout.
+
+const childEnvVar = "VERIF_C36_CHILD"
 
 type tcase struct {
 	Scheme string `json:"scheme"`
@@ -201,10 +315,91 @@ type tcase struct {
 	Name   string `json:"name"`
 }
 
-type outcome struct {
-	fp     string
-	detail map[string]interface{}
-	path   string
+type use struct {
+	Scheme string `json:"scheme"`
+	Root   string `json:"root"`
+}
+
+func (u use) String() string { return u.Scheme + "@" + u.Root }
+
+func histKey(h []use) string {
+	s := make([]string, len(h))
+	for i, u := range h {
+		s[i] = u.String()
+	}
+	return strings.Join(s, " ; ")
+}
+
+// step: one use of a pather. Set "probe" (default): probeNames; "full": names
+// [Lo,Hi) of the scheme's bounded domain; "names": the listed names (replay).
+type step struct {
+	Scheme string   `json:"scheme"`
+	Root   string   `json:"root"`
+	Set    string   `json:"set,omitempty"`
+	Lo     int      `json:"lo,omitempty"`
+	Hi     int      `json:"hi,omitempty"`
+	Names  []string `json:"names,omitempty"`
+}
+
+type spec struct {
+	Steps   []step `json:"steps"`
+	MaxComp int    `json:"max_comp"`
+	Lead    int    `json:"lead"`
+	IDLen   int    `json:"id_len"`
+}
+
+// failure: the round trip of use Victim (a step index) did not hold when
+// observed after step Step. Mode: "fresh" (path produced by the step itself),
+// "stored" (path produced when the victim was first used, converted back now),
+// "fresh-again" (an earlier use converts the name both ways again).
+type failure struct {
+	Step   int                    `json:"step"`
+	Victim int                    `json:"victim"`
+	Clause string                 `json:"clause"`
+	Name   string                 `json:"name"`
+	Mode   string                 `json:"mode"`
+	Detail map[string]interface{} `json:"detail"`
+	Count  int64                  `json:"count,omitempty"` // "full" sets: failing names of this clause
+}
+
+type stepReport struct {
+	Evals         int64                  `json:"evals"`
+	Fails         []failure              `json:"fails,omitempty"`
+	Agree         int64                  `json:"agree"`
+	Disagree      int64                  `json:"disagree"`
+	FirstDisagree *tcase                 `json:"first_disagree,omitempty"`
+	Sample        map[string]interface{} `json:"sample,omitempty"`
+}
+
+type report struct {
+	Steps []stepReport `json:"steps"`
+}
+
+func domainNames(scheme string, sp spec) []string {
+	switch scheme {
+	case namepath.DockerTag:
+		return dockerTagNames(sp.MaxComp)
+	case namepath.ShardedDockerBlob:
+		return hexNames(sp.Lead)
+	default:
+		return identityNames(sp.IDLen)
+	}
+}
+
+func stepNames(st step, sp spec) []string {
+	switch st.Set {
+	case "full":
+		ns := domainNames(st.Scheme, sp)
+		if st.Lo < 0 || st.Hi > len(ns) || st.Lo > st.Hi {
+			fmt.Fprintf(os.Stderr, "child: range [%d,%d) outside the %d names of %s\n", st.Lo, st.Hi, len(ns), st.Scheme)
+			os.Exit(3)
+		}
+		return ns[st.Lo:st.Hi]
+	case "names":
+		return st.Names
+	default:
+		return probeNames(st.Scheme)
+	}
 }
 
 // caseKey orders failing cases: smallest first.
@@ -212,129 +407,572 @@ func caseKey(root, name string) string {
 	return fmt.Sprintf("%04d|%s|%s", len(root)+len(name), root, name)
 }
 
-// roundTrip executes one case on the real pather.
-func roundTrip(c tcase) (o outcome) {
-	detail := map[string]interface{}{"scheme": c.Scheme, "root": c.Root, "name": c.Name}
-	fail := func(clause string) outcome {
-		return outcome{fp: fmt.Sprintf("%s: %s [%s]", c.Scheme, clause, rootClass(c.Root)), detail: detail, path: o.path}
-	}
+// observe executes one round trip on the real pather p (nil: namepath.New
+// failed with newErr). haveStored: the path was produced earlier and only the
+// way back is executed.
+func observe(p namepath.Pather, newErr string, c tcase, stored string, haveStored bool) (clause string, detail map[string]interface{}, bp string, produced bool) {
+	detail = map[string]interface{}{"scheme": c.Scheme, "root": c.Root, "name": c.Name}
 	defer func() {
 		if r := recover(); r != nil {
 			detail["panic"] = fmt.Sprint(r)
-			o = fail("round trip panics")
+			clause = "round trip panics"
 		}
 	}()
-	p, err := namepath.New(c.Root, c.Scheme)
-	if err != nil {
-		detail["error"] = err.Error()
-		return fail("namepath.New rejects root")
+	if p == nil {
+		detail["error"] = newErr
+		return "namepath.New rejects root", detail, "", false
 	}
-	bp, err := p.BlobPath(c.Name)
-	if err != nil {
-		detail["error"] = err.Error()
-		return fail("BlobPath rejects a valid name")
+	if haveStored {
+		bp = stored
+	} else {
+		var err error
+		bp, err = p.BlobPath(c.Name)
+		if err != nil {
+			detail["error"] = err.Error()
+			return "BlobPath rejects a valid name", detail, "", false
+		}
+		produced = true
 	}
-	o.path = bp
 	detail["blob_path"] = bp
 	got, err := p.NameFromBlobPath(bp)
 	if err != nil {
 		detail["error"] = err.Error()
-		return fail("NameFromBlobPath rejects the path BlobPath produced")
+		return "NameFromBlobPath rejects the path BlobPath produced", detail, bp, produced
 	}
 	if got != c.Name {
 		detail["name_from_blob_path"] = got
-		return fail("NameFromBlobPath(BlobPath(name)) != name")
+		return "NameFromBlobPath(BlobPath(name)) != name", detail, bp, produced
 	}
-	return o
+	return "", detail, bp, produced
 }
 
-func main() {
-	run := evid.New("C36", "exploration")
-	run.Rule = "every (scheme, root, name): scheme in {docker_tag, sharded_docker_blob, identity}; root in 10 roots (depth 0-2, with/without trailing slash, '/', relative roots as shipped in helm config); names: docker_tag = every repo of 1..k components over 20 words (incl. layout words) x 12 tags, each checked against the Docker reference grammar; sharded = 64-hex digests with the first 2/3 and the last character over all hex values; identity = every clean relative path of length <= L over {a,b,/,.,:,-,_} plus realistic names. Executed on the real pather: NameFromBlobPath(BlobPath(name)) must equal name. distinct = distinct (scheme, root, name) triples executed (all non-trivial: each is a different input to the law)."
-	run.Assume("small-scope: roots of depth <= 2 over [a-z0-9_-], repository names of <= 3 components over a 20-word vocabulary, identity names of <= 5 characters over a 7-character alphabet")
-	run.Assume("valid identity name = clean relative path (non-empty components, no '.'/'..' component, no leading/trailing slash); empty, relative-with-dots and '//' roots are outside the domain")
-	run.Assume("docker_tag names are repo:tag by the Docker reference grammar without registry host (a host:port prefix is rejected by the scheme itself)")
+// execHistory runs the history in THIS process (the child).
+func execHistory(sp spec) report {
+	type used struct {
+		st     step
+		p      namepath.Pather
+		newErr string
+		names  []string
+		stored map[string]string
+		probe  bool
+	}
+	var hist []*used
+	var rep report
+	for i, st := range sp.Steps {
+		var sr stepReport
+		u := &used{st: st, names: stepNames(st, sp), stored: map[string]string{}, probe: st.Set != "full"}
+		func() {
+			defer func() {
+				if r := recover(); r != nil {
+					u.newErr = "panic: " + fmt.Sprint(r)
+				}
+			}()
+			p, err := namepath.New(st.Root, st.Scheme)
+			if err != nil {
+				u.newErr = err.Error()
+				return
+			}
+			u.p = p
+		}()
+		hist = append(hist, u)
+		worst := map[string]int{} // "full": clause -> index in sr.Fails
+		rec := func(victim int, mode, name, stored string, haveStored bool) {
+			v := hist[victim]
+			c := tcase{v.st.Scheme, v.st.Root, name}
+			clause, detail, bp, produced := observe(v.p, v.newErr, c, stored, haveStored)
+			sr.Evals++
+			if mode == "fresh" {
+				if produced {
+					v.stored[name] = bp
+					if bp == refPath(c.Scheme, c.Root, name) {
+						sr.Agree++
+					} else {
+						sr.Disagree++
+						if sr.FirstDisagree == nil {
+							cc := c
+							sr.FirstDisagree = &cc
+						}
+					}
+					if sr.Sample == nil {
+						sr.Sample = map[string]interface{}{"scheme": c.Scheme, "root": c.Root, "name": name, "blob_path": bp}
+					}
+				}
+			}
+			if clause == "" {
+				return
+			}
+			f := failure{Step: i, Victim: victim, Clause: clause, Name: name, Mode: mode, Detail: detail}
+			if v.probe {
+				sr.Fails = append(sr.Fails, f)
+				return
+			}
+			if k, ok := worst[clause]; ok {
+				cur := &sr.Fails[k]
+				n := cur.Count + 1
+				if caseKey(c.Root, name) < caseKey(c.Root, cur.Name) {
+					*cur = f
+				}
+				cur.Count = n
+			} else {
+				f.Count = 1
+				worst[clause] = len(sr.Fails)
+				sr.Fails = append(sr.Fails, f)
+			}
+		}
+		for _, n := range u.names {
+			rec(i, "fresh", n, "", false)
+		}
+		if u.probe {
+			// a listing after this use: every path stored so far is converted back
+			for j := 0; j <= i; j++ {
+				if !hist[j].probe {
+					continue
+				}
+				for _, n := range hist[j].names {
+					if bp, ok := hist[j].stored[n]; ok {
+						rec(j, "stored", n, bp, true)
+					}
+				}
+			}
+			// every earlier use converts its names both ways again
+			for j := 0; j < i; j++ {
+				if !hist[j].probe {
+					continue
+				}
+				for _, n := range hist[j].names {
+					rec(j, "fresh-again", n, "", false)
+				}
+			}
+		}
+		rep.Steps = append(rep.Steps, sr)
+	}
+	return rep
+}
 
-	if rp := run.ReplayPath(); rp != "" {
-		b, err := os.ReadFile(rp)
+func childMain() {
+	var sp spec
+	if err := json.NewDecoder(os.Stdin).Decode(&sp); err != nil {
+		fmt.Fprintf(os.Stderr, "child: bad spec: %v\n", err)
+		os.Exit(3)
+	}
+	rep := execHistory(sp)
+	if err := json.NewEncoder(os.Stdout).Encode(rep); err != nil {
+		fmt.Fprintf(os.Stderr, "child: %v\n", err)
+		os.Exit(3)
+	}
+}
+
+// ---------------------------------------------------------------------------
+// Parent.
+
+var (
+	selfExe  string
+	childEnv []string
+)
+
+func runChild(sp spec, timeout time.Duration) (*report, error) {
+	in, _ := json.Marshal(sp)
+	ctx, cancel := context.WithTimeout(context.Background(), timeout)
+	defer cancel()
+	cmd := exec.CommandContext(ctx, selfExe)
+	cmd.Env = childEnv
+	cmd.Stdin = bytes.NewReader(in)
+	var out, errb bytes.Buffer
+	cmd.Stdout, cmd.Stderr = &out, &errb
+	if err := cmd.Run(); err != nil {
+		return nil, fmt.Errorf("child process for %s: %v: %s", in, err, errb.String())
+	}
+	var r report
+	if err := json.Unmarshal(out.Bytes(), &r); err != nil {
+		return nil, fmt.Errorf("child process for %s: bad report: %v", in, err)
+	}
+	if len(r.Steps) != len(sp.Steps) {
+		return nil, fmt.Errorf("child process for %s: %d step reports", in, len(r.Steps))
+	}
+	return &r, nil
+}
+
+func soloFP(scheme, clause, root string) string {
+	return fmt.Sprintf("%s: %s [%s]", scheme, clause, rootClass(root))
+}
+
+// Relation of another use o of the history to the victim v, strongest first.
+var relationText = []string{
+	"a repeated use of the same (scheme, root)",
+	"a use of the same scheme with the same directory spelled differently",
+	"a use of the same scheme with a different root directory",
+	"a use of another scheme with the same root",
+	"a use of another scheme with a different root",
+}
+
+func relation(v, o use) int {
+	switch {
+	case v == o:
+		return 0
+	case v.Scheme == o.Scheme && path.Clean(v.Root) == path.Clean(o.Root):
+		return 1
+	case v.Scheme == o.Scheme:
+		return 2
+	case v.Root == o.Root:
+		return 3
+	}
+	return 4
+}
+
+type verdict struct {
+	fp     string
+	detail map[string]interface{}
+	order  string
+}
+
+func inherentKey(name, clause string) string { return name + "\x00" + clause }
+
+// judgeHistory applies the oracle to the report of one history. A failure that
+// the victim use shows in a fresh process of its own (inherent) belongs to the
+// single-use class and does not end the history; the first step with any other
+// failure ends it (violating transitions are not expanded).
+func judgeHistory(uses []use, rep *report, inherent map[use]map[string]bool) []verdict {
+	for i, sr := range rep.Steps {
+		byFP := map[string]verdict{}
+		for _, f := range sr.Fails {
+			v := uses[f.Victim]
+			if inherent[v][inherentKey(f.Name, f.Clause)] {
+				continue
+			}
+			rel := -1
+			for k := 0; k <= i; k++ {
+				if k == f.Victim {
+					continue
+				}
+				if r := relation(v, uses[k]); rel < 0 || r < rel {
+					rel = r
+				}
+			}
+			relS := "no other use (the same use holds in another fresh process: not deterministic)"
+			if rel >= 0 {
+				relS = relationText[rel]
+			}
+			fp := fmt.Sprintf("%s: %s [history-dependent: holds in a fresh process, fails after %s]", v.Scheme, f.Clause, relS)
+			ord := fmt.Sprintf("%02d|%s|%02d|%s|%s", i+1, histKey(uses[:i+1]), f.Victim, f.Name, f.Mode)
+			if cur, ok := byFP[fp]; ok && cur.order <= ord {
+				continue
+			}
+			byFP[fp] = verdict{fp: fp, order: ord, detail: map[string]interface{}{
+				"history": uses[:i+1], "failing_step": i, "victim_step": f.Victim, "victim": v,
+				"name": f.Name, "clause": f.Clause, "mode": f.Mode, "observation": f.Detail,
+			}}
+		}
+		if len(byFP) > 0 {
+			var out []verdict
+			for _, v := range byFP {
+				out = append(out, v)
+			}
+			sort.Slice(out, func(a, b int) bool { return out[a].fp < out[b].fp })
+			return out
+		}
+	}
+	return nil
+}
+
+func historySpec(h []use, base spec) spec {
+	sp := base
+	sp.Steps = nil
+	for _, u := range h {
+		sp.Steps = append(sp.Steps, step{Scheme: u.Scheme, Root: u.Root})
+	}
+	return sp
+}
+
+// sequences: every sequence of exactly depth uses over alpha.
+func sequences(alpha []use, depth int) [][]use {
+	out := [][]use{nil}
+	for d := 0; d < depth; d++ {
+		var next [][]use
+		for _, h := range out {
+			for _, u := range alpha {
+				next = append(next, append(append([]use(nil), h...), u))
+			}
+		}
+		out = next
+	}
+	return out
+}
+
+func usesOver(roots []string) []use {
+	var out []use
+	for _, s := range schemes {
+		for _, r := range roots {
+			out = append(out, use{s, r})
+		}
+	}
+	return out
+}
+
+func replay(run *evid.Run, rp string, base spec) {
+	b, err := os.ReadFile(rp)
+	if err != nil {
+		run.Fatal(err)
+	}
+	var f struct {
+		Case json.RawMessage `json:"case"`
+	}
+	if err := json.Unmarshal(b, &f); err != nil {
+		run.Fatal(err)
+	}
+	var h struct {
+		History []use `json:"history"`
+	}
+	var c tcase
+	if err := json.Unmarshal(f.Case, &h); err != nil {
+		run.Fatal(err)
+	}
+	if err := json.Unmarshal(f.Case, &c); err != nil {
+		run.Fatal(err)
+	}
+	if len(h.History) > 0 {
+		inherent := map[use]map[string]bool{}
+		for _, u := range h.History {
+			if inherent[u] != nil {
+				continue
+			}
+			inherent[u] = map[string]bool{}
+			r, err := runChild(historySpec([]use{u}, base), time.Minute)
+			if err != nil {
+				run.Fatal(err)
+			}
+			for _, fl := range r.Steps[0].Fails {
+				inherent[u][inherentKey(fl.Name, fl.Clause)] = true
+				run.Violation(soloFP(u.Scheme, fl.Clause, u.Root), fl.Detail)
+			}
+			run.Eval(int(r.Steps[0].Evals))
+		}
+		r, err := runChild(historySpec(h.History, base), time.Minute)
 		if err != nil {
 			run.Fatal(err)
 		}
-		var f struct {
-			Case tcase `json:"case"`
+		for i := range h.History {
+			run.Eval(int(r.Steps[i].Evals))
+			run.Distinct("H|" + histKey(h.History[:i+1]))
 		}
-		if err := json.Unmarshal(b, &f); err != nil {
-			run.Fatal(err)
-		}
-		o := roundTrip(f.Case)
-		run.Eval(1)
 		run.Distinct("replay")
-		run.Distinct("replay2")
-		run.Sample(f.Case)
-		if o.fp != "" {
-			run.Violation(o.fp, o.detail)
+		run.Sample(h)
+		for _, v := range judgeHistory(h.History, r, inherent) {
+			run.Violation(v.fp, v.detail)
 		}
 		run.Finish()
 		return
 	}
+	sp := base
+	sp.Steps = []step{{Scheme: c.Scheme, Root: c.Root, Set: "names", Names: []string{c.Name}}}
+	r, err := runChild(sp, time.Minute)
+	if err != nil {
+		run.Fatal(err)
+	}
+	run.Eval(int(r.Steps[0].Evals))
+	run.Distinct("replay")
+	run.Distinct("replay2")
+	run.Sample(c)
+	for _, fl := range r.Steps[0].Fails {
+		run.Violation(soloFP(c.Scheme, fl.Clause, c.Root), fl.Detail)
+	}
+	run.Finish()
+}
 
-	runtime.GOMAXPROCS(evid.Workers())
-	maxComp, lead, idLen, budget := 2, 2, 4, 50*time.Second
+func main() {
+	if os.Getenv(childEnvVar) != "" {
+		childMain()
+		return
+	}
+	run := evid.New("C36", "exploration")
+	run.Rule = "Every case runs in a fresh child process of the check (package-level state of the implementation is process state; one process per history). " +
+		"Part A, single use: every (scheme, root, name): scheme in {docker_tag, sharded_docker_blob, identity}; root in 10 roots (depth 0-2, with/without trailing slash, '/', relative roots as shipped in helm config) x names: docker_tag = every repo of 1..k components over 20 words (incl. layout words) x 12 tags, each checked against the Docker reference grammar; sharded = 64-hex digests with the first 2/3 and the last character over all hex values; identity = every clean relative path of length <= L over {a,b,/,.,:,-,_} plus realistic names; plus 6 more roots ('', '//', 'a/', 'a.b', '/a+b/', '/a(b') x the same name domain one size smaller (k-1, first 1/2 hex characters, L-1). " +
+		"Part B, histories of uses (scheme, root) inside one process. quick: every ordered pair (incl. the repeated use) of uses of one scheme over the root spellings {'', '/', a, a/, /a, A}; every ordered pair of two different schemes on the roots '' and 'a/'; per scheme the 8 cyclic rotations of the history that uses all of {'', '/', a, a/, /a, A, a/b, a.b} once. thorough: every ordered pair over 3 schemes x 12 spellings ('', '/', '//', a, a/, /a, /a/, a/b, /a/b/, a.b, A, /a+b); every triple over {docker_tag, sharded_docker_blob} x {'', '/', a, /a}; the 36 cyclic rotations of the history that uses all 36 uses once. Each use creates a pather and round-trips 2-5 probe names; after EVERY use the paths stored by all uses so far are converted back (a later listing) and every earlier use round-trips its names again; every prefix of a history is judged. " +
+		"Oracle everywhere: NameFromBlobPath(BlobPath(name)) must equal name. A failure inside a history that the same use also shows as the first use of a fresh process belongs to the single-use class; any other failure is history-dependent and ends the history. distinct = distinct (scheme, root, name) triples of part A + distinct histories (every judged prefix is one) of part B."
+	run.Assume("small-scope: roots of depth <= 2 over [a-zA-Z0-9_.+(-], repository names of <= 3 components over a 20-word vocabulary, identity names of <= 5 characters over a 7-character alphabet")
+	run.Assume("valid identity name = clean relative path (non-empty components, no '.'/'..' component, no leading/trailing slash); roots with '.' or '..' COMPONENTS are outside the domain")
+	run.Assume("docker_tag names are repo:tag by the Docker reference grammar without registry host (a host:port prefix is rejected by the scheme itself)")
+	run.Assume("histories: sequential uses inside one process, 2-3 uses exhaustively and one use of every alphabet member in cyclic order, one pather object per use, probe names only; concurrent uses and state shared through anything but the process (files, environment) are not explored")
+
+	var err error
+	if selfExe, err = os.Executable(); err != nil {
+		run.Fatal(err)
+	}
+	childEnv = append(os.Environ(), childEnvVar+"=1", "GOMAXPROCS=1")
+
+	maxComp, lead, idLen, budget := 2, 2, 4, 100*time.Second // ~10 s on an idle machine; the budget only matters under heavy load
 	if run.Thorough() {
 		maxComp, lead, idLen, budget = 3, 3, 5, 800*time.Second
 	}
-	names := map[string][]string{
-		namepath.DockerTag:         dockerTagNames(maxComp),
-		namepath.ShardedDockerBlob: hexNames(lead),
-		namepath.Identity:          identityNames(idLen),
+	base := spec{MaxComp: maxComp, Lead: lead, IDLen: idLen}
+
+	if rp := run.ReplayPath(); rp != "" {
+		replay(run, rp, base)
+		return
 	}
-	// Domain self-check: every generated name is valid by the independent grammar.
-	for _, n := range names[namepath.DockerTag] {
-		if !validDockerTagName(n) {
-			run.Fatal(fmt.Errorf("generator produced invalid docker_tag name %q", n))
+
+	names := map[string][]string{}
+	for _, s := range schemes {
+		names[s] = domainNames(s, base)
+		// Domain self-check: every generated name is valid by the independent grammar.
+		for _, n := range names[s] {
+			if !validName(s, n) {
+				run.Fatal(fmt.Errorf("generator produced invalid %s name %q", s, n))
+			}
 		}
-	}
-	for _, n := range names[namepath.ShardedDockerBlob] {
-		if !reHex64.MatchString(n) {
-			run.Fatal(fmt.Errorf("generator produced invalid hex digest %q", n))
-		}
-	}
-	for _, n := range names[namepath.Identity] {
-		if !validIdentityName(n) {
-			run.Fatal(fmt.Errorf("generator produced invalid identity name %q", n))
+		for _, n := range probeNames(s) {
+			if !validName(s, n) {
+				run.Fatal(fmt.Errorf("invalid %s probe name %q", s, n))
+			}
 		}
 	}
 
+	const (
+		kindA = iota
+		kindHist
+	)
 	type job struct {
-		scheme, root string
-		names        []string
+		kind    int
+		sp      spec
+		uses    []use
+		names   []string
+		rep     *report
+		skipped bool
 	}
-	var jobs []job
-	const chunk = 4096
-	schemes := []string{namepath.DockerTag, namepath.ShardedDockerBlob, namepath.Identity}
-	for _, s := range schemes {
-		for _, r := range roots {
-			ns := names[s]
-			for i := 0; i < len(ns); i += chunk {
-				e := i + chunk
-				if e > len(ns) {
-					e = len(ns)
+	var jobs []*job
+
+	// Part A: one fresh process per (scheme, root, chunk of names).
+	const chunk = 16384
+	reduced := spec{MaxComp: maxComp - 1, Lead: lead - 1, IDLen: idLen - 1}
+	partA := func(roots []string, dom spec) {
+		for _, s := range schemes {
+			ns := domainNames(s, dom)
+			for _, n := range ns {
+				if !validName(s, n) {
+					run.Fatal(fmt.Errorf("generator produced invalid %s name %q", s, n))
 				}
-				jobs = append(jobs, job{s, r, ns[i:e]})
 			}
+			for _, r := range roots {
+				for i := 0; i < len(ns); i += chunk {
+					e := i + chunk
+					if e > len(ns) {
+						e = len(ns)
+					}
+					sp := dom
+					sp.Steps = []step{{Scheme: s, Root: r, Set: "full", Lo: i, Hi: e}}
+					jobs = append(jobs, &job{kind: kindA, sp: sp, uses: []use{{s, r}}, names: ns[i:e]})
+				}
+			}
+		}
+	}
+	partA(soloRoots, base)
+	partA(extraSoloRoots, reduced)
+
+	// Part B: one fresh process per maximal history (a history that is a proper
+	// prefix of another one is covered by the longer one's process, which is
+	// judged after every step).
+	maximal := map[string][]use{}
+	add := func(h []use) { maximal[histKey(h)] = append([]use(nil), h...) }
+	hroots := quickHistoryRoots
+	if run.Thorough() {
+		hroots = historyRoots
+	}
+	alphabet := usesOver(hroots)
+	if run.Thorough() {
+		// every ordered pair of uses; every triple over the regexp schemes x core roots
+		for _, h := range sequences(alphabet, 2) {
+			add(h)
+		}
+		for _, h := range sequences(usesOver(coreHistoryRoots)[:2*len(coreHistoryRoots)], 3) {
+			add(h)
+		}
+	} else {
+		// every ordered pair of uses of one scheme (incl. the repeated use), and
+		// every ordered pair of two schemes on one root (two roots)
+		for _, s := range schemes {
+			for _, r1 := range quickPairRoots {
+				for _, r2 := range quickPairRoots {
+					add([]use{{s, r1}, {s, r2}})
+				}
+			}
+		}
+		for _, s1 := range schemes {
+			for _, s2 := range schemes {
+				for _, r := range quickCrossSchemeRoots {
+					if s1 != s2 {
+						add([]use{{s1, r}, {s2, r}})
+					}
+				}
+			}
+		}
+	}
+	// long-lived process: a whole alphabet used once, from every starting point
+	// of its cyclic order -- thorough: all uses (scheme-major); quick: per scheme
+	rotations := func(alpha []use) {
+		for i := range alpha {
+			add(append(append([]use(nil), alpha[i:]...), alpha[:i]...))
+		}
+	}
+	if run.Thorough() {
+		rotations(alphabet)
+	} else {
+		for i := range schemes {
+			rotations(alphabet[i*len(hroots) : (i+1)*len(hroots)])
+		}
+	}
+	nodes := map[string]bool{}
+	for _, h := range maximal {
+		for i := 1; i <= len(h); i++ {
+			nodes[histKey(h[:i])] = true
+		}
+	}
+	for _, h := range maximal {
+		for i := 1; i < len(h); i++ {
+			delete(maximal, histKey(h[:i]))
+		}
+	}
+	var hkeys []string
+	for k := range maximal {
+		hkeys = append(hkeys, k)
+	}
+	sort.Strings(hkeys)
+	var hjobs []*job
+	for _, k := range hkeys {
+		hjobs = append(hjobs, &job{kind: kindHist, sp: historySpec(maximal[k], base), uses: maximal[k]})
+	}
+	// Job order: the long-lived histories (they also give their first use its
+	// fresh-process reference), the reduced-domain part A jobs, then the full
+	// part A jobs (long) interleaved with the short histories, so that a time
+	// budget hit under heavy machine load cuts a tail of both parts.
+	sort.SliceStable(hjobs, func(a, b int) bool { return len(hjobs[a].uses) > len(hjobs[b].uses) })
+	nlong := 0
+	for nlong < len(hjobs) && len(hjobs[nlong].uses) > 3 {
+		nlong++
+	}
+	ajobs, short := jobs, hjobs[nlong:]
+	jobs = append([]*job(nil), hjobs[:nlong]...)
+	var fullA []*job
+	for _, j := range ajobs {
+		if j.sp.MaxComp == reduced.MaxComp {
+			jobs = append(jobs, j)
+		} else {
+			fullA = append(fullA, j)
+		}
+	}
+	per := 1
+	if len(fullA) > 0 {
+		per = (len(short) + len(fullA) - 1) / len(fullA)
+	}
+	for len(fullA) > 0 || len(short) > 0 {
+		if len(fullA) > 0 {
+			jobs, fullA = append(jobs, fullA[0]), fullA[1:]
+		}
+		for k := 0; k < per && len(short) > 0; k++ {
+			jobs, short = append(jobs, short[0]), short[1:]
 		}
 	}
 
 	deadline := time.Now().Add(budget)
 	var next int64 = -1
-	var skipped int64
-	var mu sync.Mutex
-	perScheme := map[string]int64{}
-	perRootClass := map[string]int64{}
-	var layoutAgree, layoutDisagree, failing int64
-	var firstDisagree *tcase
-	worst := map[string]outcome{} // minimal failing case per fingerprint (deterministic)
-	nPerFp := map[string]int64{}
 	var wg sync.WaitGroup
 	for w := 0; w < evid.Workers(); w++ {
 		wg.Add(1)
@@ -347,71 +985,175 @@ func main() {
 				}
 				j := jobs[i]
 				if time.Now().After(deadline) {
-					atomic.AddInt64(&skipped, int64(len(j.names)))
+					j.skipped = true
 					continue
 				}
-				var agree, disagree, bad int64
-				var dis *tcase
-				for _, n := range j.names {
-					c := tcase{j.scheme, j.root, n}
-					o := roundTrip(c)
-					run.Distinct(j.scheme + "|" + j.root + "|" + n)
-					if o.fp != "" {
-						bad++
-						mu.Lock()
-						cur, ok := worst[o.fp]
-						if !ok || caseKey(j.root, n) < caseKey(cur.detail["root"].(string), cur.detail["name"].(string)) {
-							worst[o.fp] = o
-						}
-						nPerFp[o.fp]++
-						mu.Unlock()
-					}
-					if o.path != "" {
-						if o.path == refPath(j.scheme, j.root, n) {
-							agree++
-						} else {
-							disagree++
-							if dis == nil {
-								cc := c
-								dis = &cc
-							}
-						}
-					}
+				r, err := runChild(j.sp, 5*time.Minute)
+				if err != nil {
+					run.Fatal(err)
 				}
-				run.Eval(len(j.names))
-				mu.Lock()
-				perScheme[j.scheme] += int64(len(j.names))
-				perRootClass[rootClass(j.root)] += int64(len(j.names))
-				layoutAgree += agree
-				layoutDisagree += disagree
-				failing += bad
-				if firstDisagree == nil && dis != nil {
-					firstDisagree = dis
-				}
-				mu.Unlock()
+				j.rep = r
 			}
 		}()
 	}
 	wg.Wait()
+
+	// ---- aggregation (sequential, in job order: deterministic) ----
+	type worstCase struct {
+		detail map[string]interface{}
+		order  string
+	}
+	worst := map[string]worstCase{} // minimal failing case per fingerprint
+	nPerFp := map[string]int64{}
+	note := func(fp, order string, detail map[string]interface{}, n int64) {
+		nPerFp[fp] += n
+		if cur, ok := worst[fp]; !ok || order < cur.order {
+			worst[fp] = worstCase{detail, order}
+		}
+	}
+	perScheme := map[string]int64{}
+	perRootClass := map[string]int64{}
+	var layoutAgree, layoutDisagree, failing, skippedCases, skippedHist int64
+	var firstDisagree *tcase
+	inherent := map[use]map[string]bool{}
+	for _, j := range jobs {
+		if j.skipped {
+			if j.kind == kindA {
+				skippedCases += int64(len(j.names))
+			} else {
+				skippedHist++
+			}
+			continue
+		}
+		sr := j.rep.Steps[0]
+		u := j.uses[0]
+		switch j.kind {
+		case kindA:
+			if sr.Evals != int64(len(j.names)) {
+				run.Fatal(fmt.Errorf("child for %v evaluated %d of %d names", j.sp.Steps, sr.Evals, len(j.names)))
+			}
+			run.Eval(int(sr.Evals))
+			for _, n := range j.names {
+				run.Distinct(u.Scheme + "|" + u.Root + "|" + n)
+			}
+			perScheme[u.Scheme] += sr.Evals
+			perRootClass[rootClass(u.Root)] += sr.Evals
+			layoutAgree += sr.Agree
+			layoutDisagree += sr.Disagree
+			if firstDisagree == nil && sr.FirstDisagree != nil {
+				firstDisagree = sr.FirstDisagree
+			}
+			for _, f := range sr.Fails {
+				failing += f.Count
+				note(soloFP(u.Scheme, f.Clause, u.Root), "A|"+caseKey(u.Root, f.Name), f.Detail, f.Count)
+			}
+			if j.sp.Steps[0].Lo == 0 && (u.Root == "/" || u.Root == "/a/b/") && sr.Sample != nil {
+				run.Sample(sr.Sample)
+			}
+		}
+	}
+	// Failures of the FIRST use of a history are failures of that use in a fresh
+	// process: the single-use class (reported once per use).
+	firstFails := map[use]string{}
+	for _, j := range jobs {
+		if j.kind != kindHist || j.skipped {
+			continue
+		}
+		u := j.uses[0]
+		var sig []string
+		for _, f := range j.rep.Steps[0].Fails {
+			sig = append(sig, f.Mode+"\x00"+inherentKey(f.Name, f.Clause))
+		}
+		sort.Strings(sig)
+		sg := strings.Join(sig, "\x01")
+		if prev, seen := firstFails[u]; seen {
+			if prev != sg {
+				note(fmt.Sprintf("%s: the round trips of one first use differ between two fresh processes [not deterministic]", u.Scheme),
+					"N|"+histKey(j.uses), map[string]interface{}{"history": j.uses[:1], "fails": j.rep.Steps[0].Fails}, 1)
+			}
+			continue
+		}
+		firstFails[u] = sg
+		inherent[u] = map[string]bool{}
+		for _, f := range j.rep.Steps[0].Fails {
+			inherent[u][inherentKey(f.Name, f.Clause)] = true
+			failing++
+			note(soloFP(u.Scheme, f.Clause, u.Root), "B|"+caseKey(u.Root, f.Name), f.Detail, 1)
+		}
+	}
+	var histExecuted, histNodes, histFailing, inherentSeen int64
+	relPairs := make([]int64, len(relationText))
+	var slashOnly int64
+	stripSlashes := func(s string) string { return strings.ReplaceAll(s, "/", "") }
+	for _, j := range jobs {
+		if j.kind != kindHist || j.skipped {
+			continue
+		}
+		unjudged := false
+		for _, u := range j.uses {
+			if inherent[u] == nil {
+				if skippedHist == 0 {
+					run.Fatal(fmt.Errorf("no history starts with use %v", u))
+				}
+				unjudged = true // its fresh-process reference was cut by the time budget
+			}
+		}
+		if unjudged {
+			skippedHist++
+			continue
+		}
+		histExecuted++
+		for i := range j.uses {
+			run.Eval(int(j.rep.Steps[i].Evals))
+			run.Distinct("H|" + histKey(j.uses[:i+1]))
+			for _, f := range j.rep.Steps[i].Fails {
+				if inherent[j.uses[f.Victim]][inherentKey(f.Name, f.Clause)] {
+					inherentSeen++
+				}
+			}
+		}
+		near := false
+		for a := 0; a < len(j.uses); a++ {
+			for b := a + 1; b < len(j.uses); b++ {
+				relPairs[relation(j.uses[b], j.uses[a])]++
+				x, y := j.uses[a], j.uses[b]
+				if x.Scheme == y.Scheme && path.Clean(x.Root) != path.Clean(y.Root) && stripSlashes(x.Root) == stripSlashes(y.Root) {
+					near = true
+				}
+			}
+		}
+		if near {
+			slashOnly++
+		}
+		vs := judgeHistory(j.uses, j.rep, inherent)
+		if len(vs) > 0 {
+			histFailing++
+		}
+		for _, v := range vs {
+			note(v.fp, "H|"+v.order, v.detail, 1)
+		}
+	}
+	histNodes = int64(len(nodes))
+
 	var fps []string
 	for fp := range worst {
 		fps = append(fps, fp)
 	}
 	sort.Strings(fps)
 	for _, fp := range fps {
-		o := worst[fp]
-		o.detail["failing_cases_in_class"] = nPerFp[fp]
-		run.Violation(fp, o.detail)
+		w := worst[fp]
+		w.detail["failing_cases_in_class"] = nPerFp[fp]
+		run.Violation(fp, w.detail)
 	}
-	if skipped > 0 {
-		run.NotExhaustive(fmt.Sprintf("time budget hit: %d cases not executed", skipped))
+	if skippedCases > 0 || skippedHist > 0 {
+		run.NotExhaustive(fmt.Sprintf("time budget hit: %d single-use cases and %d histories not executed", skippedCases, skippedHist))
 	}
-	for _, s := range schemes {
-		for _, r := range []string{"/", "/a/b/"} {
-			n := names[s][len(names[s])/3]
-			p, _ := namepath.New(r, s)
-			bp, _ := p.BlobPath(n)
-			run.Sample(map[string]interface{}{"scheme": s, "root": r, "name": n, "blob_path": bp})
+	nsample := 0
+	for _, j := range jobs {
+		if j.kind == kindHist && !j.skipped && nsample < 2 && len(j.uses) >= 2 &&
+			j.uses[0].Scheme == j.uses[1].Scheme && j.uses[0].Root == "" && j.uses[1].Root == "/" {
+			run.Sample(map[string]interface{}{"history": j.uses, "probe_names": probeNames(j.uses[0].Scheme)})
+			nsample++
 		}
 	}
 	run.Set("cases_per_scheme", perScheme)
@@ -421,17 +1163,34 @@ func main() {
 		namepath.ShardedDockerBlob: len(names[namepath.ShardedDockerBlob]),
 		namepath.Identity:          len(names[namepath.Identity]),
 	})
-	run.Set("roots", roots)
+	run.Set("roots", soloRoots)
+	run.Set("roots_with_reduced_name_domain", extraSoloRoots)
+	run.Set("history_roots", hroots)
 	run.Set("failing_cases", failing)
+	run.Set("child_processes", len(jobs))
+	run.Set("histories_explored", histNodes)
+	run.Set("history_processes", histExecuted)
+	run.Set("histories_with_history_dependent_failure", histFailing)
+	run.Set("history_observations_matching_a_single_use_failure", inherentSeen)
+	run.Set("histories_with_two_roots_of_one_scheme_differing_only_in_slashes_but_not_in_directory", slashOnly)
+	rp := map[string]int64{}
+	for i, n := range relPairs {
+		rp[relationText[i]] = n
+	}
+	run.Set("ordered_use_pairs_per_relation", rp)
 	// Diagnostic only (the statement is the round trip, not the layout).
 	run.Set("blobpath_equals_reference_layout", layoutAgree)
 	run.Set("blobpath_differs_from_reference_layout", layoutDisagree)
 	if firstDisagree != nil {
 		run.Set("first_layout_difference", firstDisagree)
 	}
-	var ru syscall.Rusage
-	if syscall.Getrusage(syscall.RUSAGE_SELF, &ru) == nil {
-		run.Set("cpu_s", float64(ru.Utime.Sec+ru.Stime.Sec)+float64(ru.Utime.Usec+ru.Stime.Usec)/1e6)
+	cpu := 0.0
+	for _, who := range []int{syscall.RUSAGE_SELF, syscall.RUSAGE_CHILDREN} {
+		var ru syscall.Rusage
+		if syscall.Getrusage(who, &ru) == nil {
+			cpu += float64(ru.Utime.Sec+ru.Stime.Sec) + float64(ru.Utime.Usec+ru.Stime.Usec)/1e6
+		}
 	}
+	run.Set("cpu_s", cpu)
 	run.Finish()
 }
